@@ -210,6 +210,41 @@ def repeated_calls_oracle(R, base, ncalls):
                                'sample': out[:, j].tolist(),
                                'note': 'two different calls returned a bit-identical sample (probability zero for independent draws)'}
                     seen[key] = c
+    # what a call returned stays what it was when later calls are made on the same object, and the events of a joint draw differ
+    for kind in ('mt', 'dc', 'clvd', 'sample', 'sample-dc'):
+        for n in (1, 4):
+            if kind == 'sample-dc':
+                alg = base.BaseAlgorithm(number_samples=n, dc=True)
+            else:
+                alg = new_alg(base, n) if kind != 'sample' else base.BaseAlgorithm(number_samples=n)
+            draw = lambda: (base._6sphere_random_mt(alg) if kind == 'mt' else (alg.random_dc() if kind == 'dc' else (
+                alg.random_clvd() if kind == 'clvd' else alg.random_sample())))
+            held, copies = [], []
+            for c in range(6):
+                out = draw()
+                held.append(out)
+                copies.append(np.array(out, dtype=float, copy=True))
+                R.count(('held', kind, n, c))
+                for e, (h, cp) in enumerate(zip(held, copies)):
+                    if not np.array_equal(np.asarray(h, dtype=float), cp) and bad is None:
+                        bad = {'check': 'earlier-result-kept', 'kind': kind, 'number_samples': n, 'call': c, 'earlier_call': e,
+                               'returned_then': cp.tolist(), 'holds_now': np.asarray(h, dtype=float).tolist(),
+                               'note': 'the samples returned by an earlier call changed when the generator was called again'}
+    for dc in (False, True):
+        for ne in (2, 3):
+            import MTfit.algorithms.monte_carlo as mcarlo
+            alg = mcarlo.BaseMonteCarloRandomSample(number_samples=4, number_events=ne, dc=dc)
+            out = alg.random_sample()
+            R.count(('events', dc, ne))
+            if isinstance(out, (list, tuple)) and len(out) == ne:
+                arrs = [np.asarray(o, dtype=float) for o in out]
+                for i in range(ne):
+                    for j in range(i + 1, ne):
+                        if arrs[i].shape == arrs[j].shape and np.array_equal(arrs[i], arrs[j]) and bad is None:
+                            bad = {'check': 'events-independent', 'dc': dc, 'number_events': ne, 'events': [i, j], 'samples': arrs[i].tolist(),
+                                   'note': 'two events of one joint draw received bit-identical samples'}
+            elif bad is None:
+                bad = {'check': 'events-independent', 'dc': dc, 'number_events': ne, 'note': 'a joint draw did not return one sample set per event: %r' % type(out)}
     return bad
 
 
@@ -236,7 +271,7 @@ def run(R):
                         dict(rec, check='sample-vs-own-draws'))
     R.cov['rule'] = ('recorded draws: 1-20 samples per call for random_mt / random_dc / random_clvd / random_sample, every column compared bit '
                      'for bit with the model on its own draws; pattern: unit norm and eigenvalues of every sample; statistics: first and second '
-                     'moments of the six-vector components, lag-one independence, second moments of the T, N and P axes within one call; 300 consecutive small calls per generator must not repeat a sample')
+                     'moments of the six-vector components, lag-one independence, second moments of the T, N and P axes within one call; 300 consecutive small calls per generator must not repeat a sample; results held across later calls must not change; events of a joint draw must differ')
     return proved
 
 
